@@ -402,3 +402,68 @@ def first_lines(path, n):
                 break
             out.append(json.loads(l))
     return out
+
+
+# --------------------------------------------------------------------------- the standard three-way pattern
+def standard_run(ctx, *, mc=(), goals=None, gens=(), trace, replay_cmd="world-replay", drives=(), known_matcher=None,
+                 is_reset=default_is_reset, sample_n=2):
+    """(M) model-check each (module, cfg[, workers, timeout]); (S->I) generate behaviours with each
+    (module, cfg, simulate|None, limit) and replay them with `vh <replay_cmd>`; (I->S) run each drive
+    command; validate every recorded trace with trace=(module, cfg).  Rejected histories become
+    violations unless the known-findings matcher claims them."""
+    build_harness(ctx)
+    for m in mc:
+        module, cfg = m[0], m[1]
+        model_check(ctx, module, cfg, workers=m[2] if len(m) > 2 else 8, timeout=m[3] if len(m) > 3 else 900)
+    if goals:
+        check_goals(ctx, goals[0], goals[1], goals[2])
+    rejected = []
+    if gens:
+        beh = ctx.path("beh.jsonl")
+        n = 0
+        for gi, g in enumerate(gens):
+            module, cfg, sim, limit = g
+            n += generate(ctx, module, cfg, beh, workers=1 if sim else 4, simulate=sim, limit=limit,
+                          seed=ctx.seed if sim else None, tag="gen%d" % gi)
+        ctx.behaviours += n
+        vh(ctx, [replay_cmd, "--in", beh, "--out", ctx.path("replay.ndjson")])
+        rejected += validate_traces(ctx, trace[0], trace[1], ctx.path("replay.ndjson"), "replay", is_reset=is_reset)
+        for s in first_lines(ctx.path("replay.ndjson"), sample_n + 2)[2:]:
+            add_sample(ctx, "event_of_replayed_spec_behaviour", s)
+    for di, d in enumerate(drives):
+        out = ctx.path("drive%d.ndjson" % di)
+        vh(ctx, list(d) + ["--seed", ctx.seed, "--out", out])
+        rejected += validate_traces(ctx, trace[0], trace[1], out, "drive%d" % di, is_reset=is_reset)
+        for s in first_lines(out, sample_n + 2)[2:]:
+            add_sample(ctx, "event_of_recorded_trace", s)
+    for r in rejected:
+        k = known_matcher(r) if known_matcher else None
+        if k:
+            if k not in ctx.known:
+                ctx.known.append(k)
+            continue
+        bad = r["history"][r["at"] - 1] if 0 < r["at"] <= len(r["history"]) else ""
+        report_violation(ctx, "%s at event %s: %s" % (r["why"], r["at"], bad[:300]), r["history"])
+    return rejected
+
+
+def strip_observations(evs, input_keys):
+    """Keep only the input fields of recorded events (for --replay)."""
+    return [{k: v for k, v in e.items() if k in input_keys} for e in evs]
+
+
+def standard_replay(ctx, path, trace, input_keys, replay_cmd="world-replay", is_reset=default_is_reset):
+    build_harness(ctx)
+    evs = [json.loads(l) for l in open(path) if l.strip()]
+    with open(ctx.path("in.jsonl"), "w") as f:
+        f.write(json.dumps(strip_observations(evs, input_keys)) + "\n")
+    vh(ctx, [replay_cmd, "--in", ctx.path("in.jsonl"), "--out", ctx.path("re.ndjson")])
+    rej = validate_traces(ctx, trace[0], trace[1], ctx.path("re.ndjson"), "re", is_reset=is_reset)
+    for r in rej:
+        report_violation(ctx, r["why"], r["history"], name=os.path.basename(path) + ".again")
+    if not rej:
+        ctx.log("replayed history is accepted by the specification on this tree")
+
+
+WORLD_INPUT_KEYS = {"e", "t", "tn", "cfg", "align", "obs", "fresh", "fam", "op", "res", "rules", "id", "n", "in", "args",
+                    "att", "err", "v"}
